@@ -232,44 +232,86 @@ def rule_exit_monotone(ctx, repo):
 
 def rule_main(ctx, repo):
     f = F.function(repo, MAIN, "run")
-    # aggregation, decided by evaluation: the top-level statements of run() that touch `ex_code` are evaluated (engine/tinyexec.py) for
-    # every outcome class of the case runners; the process exit code must count every failure
-    from engine.tinyexec import TinyExec, Self
+    # aggregation, decided by evaluation: `run(..., cli=True)` is evaluated (engine/tinyexec.py) together with the multi-case runners
+    # `_run_mp_proc` / `_run_mp_pool` for every outcome class of the cases; `run_case`, Process and Pool are replaced by stand-ins that
+    # deliver the outcome of each case (a worker process delivers only what its target passes to sys.exit).  The process exit code must
+    # be non-zero exactly when some case failed.
+    from engine.tinyexec import TinyExec, Fake
     from engine.ordertype import Unsupported
+    import functools
 
-    class _Sys:
+    class _Sys(Fake):
         def __init__(self, code):
             self.exit_code = code
-    stmts = [st for st in f.fn.body if any(isinstance(x, ast.Name) and x.id == "ex_code" for x in ast.walk(st))
-             and not isinstance(st, ast.Return) and not (isinstance(st, ast.If) and any(isinstance(x, ast.Return) for x in ast.walk(st)))]
-    scen = [("one case, no system produced", dict(filename="a.xlsx", cases=["a"], system=None), 1),
-            ("one case, system with 3 recorded failures", dict(filename="a.xlsx", cases=["a"], system=_Sys(3)), 3),
-            ("one case, clean", dict(filename="a.xlsx", cases=["a"], system=_Sys(0)), 0),
-            ("two cases (pool), failures 1 and 2", dict(filename="*.xlsx", cases=["a", "b"], system=[_Sys(1), _Sys(2)]), 3),
-            ("two cases (pool), clean", dict(filename="*.xlsx", cases=["a", "b"], system=[_Sys(0), _Sys(0)]), 0),
-            ("file given but not found", dict(filename="zz.xlsx", cases=[], system=None), 1),
-            ("no file given", dict(filename="", cases=[], system=None), 0)]
-    bad, undec = {"single": [], "multi": [], "not-found": []}, None
-    for what, env0, want in scen:
-        env = dict(env0, s0="", shell=False, cli=True)
+
+    def evaluate(filename, outcomes, pool):
+        cases = sorted(outcomes)
+
+        class _Process(Fake):
+            def __init__(self, name=None, target=None, args=(), kwargs=None):
+                self.target, self.args, self.kwargs, self.exitcode = target, args, kwargs or {}, None
+
+            def start(self):
+                try:
+                    self.target(*self.args, **self.kwargs)
+                    self.exitcode = 0
+                except SystemExit as ex:
+                    c = ex.code
+                    self.exitcode = 0 if c is None else (c if isinstance(c, int) else 1)
+
+            def join(self, *a):
+                pass
+
+        class _Pool(Fake):
+            def __init__(self, *a, **k):
+                pass
+
+            def map(self, fn, items):
+                return [fn(x) for x in items]
+
+        def _exit(code=None):
+            raise SystemExit(code)
+        nop = lambda *a, **k: None      # noqa: E731
+        stubs = {"logger.debug": nop, "logger.info": nop, "logger.warning": nop, "logger.error": nop, "set_logger_level": nop,
+                 "import_pycode": nop, "config_logger": nop, "fix_view_arrays": nop, "sleep": nop, "find_log_path": lambda *a: [],
+                 "is_interactive": lambda: False, "elapsed": lambda *a: (0.0, ""), "_find_cases": lambda *a, **k: list(cases),
+                 "run_case": lambda file, **kw: outcomes[file], "Process": _Process, "Pool": _Pool, "partial": functools.partial,
+                 "sys.exit": _exit, "System": _Sys, "logger": object(), "NCPUS_PHYSICAL": 2, "logging.INFO": 20, "logging.DEBUG": 10,
+                 "logging.StreamHandler": object, "logging.FileHandler": object}
+        ex = TinyExec(repo, None, MAIN, stubs=stubs)
+        return ex.call_function(f.fn, [filename], dict(cli=True, pool=pool, ncpu=2))
+
+    S = _Sys
+    scen = [("single", "one case, no system produced", "a", {"a": None}, False),
+            ("single", "one case, 3 recorded failures", "a", {"a": S(3)}, False),
+            ("single", "one case, clean", "a", {"a": S(0)}, False),
+            ("multi", "two cases (pool), failures 1 and 2", "*", {"a": S(1), "b": S(2)}, True),
+            ("multi", "two cases (pool), the second failed", "*", {"a": S(0), "b": S(1)}, True),
+            ("multi", "two cases (pool), clean", "*", {"a": S(0), "b": S(0)}, True),
+            ("multi-proc", "two cases (worker processes), the second failed", "*", {"a": S(0), "b": S(2)}, False),
+            ("multi-proc", "two cases (worker processes), the first produced no system", "*", {"a": None, "b": S(0)}, False),
+            ("multi-proc", "three cases (worker processes, two per batch), the first failed", "*", {"a": S(1), "b": S(0), "c": S(0)}, False),
+            ("multi-proc", "three cases (worker processes), clean", "*", {"a": S(0), "b": S(0), "c": S(0)}, False),
+            ("not-found", "file given but not found", "zz.xlsx", {}, False),
+            ("not-found", "no file given", "", {}, False)]
+    bad, undec = {}, {}
+    for kind, what, filename, outcomes, pool in scen:
+        failed = any(o is None or o.exit_code != 0 for o in outcomes.values()) or (filename != "" and not outcomes)
         try:
-            TinyExec(repo, "System", SYSTEM).run(stmts, env, Self())
+            got = evaluate(filename, outcomes, pool)
         except Unsupported as ex:
-            undec = str(ex)
-            break
-        got = env.get("ex_code")
-        if got != want:
-            kind = "single" if "one case" in what else ("multi" if "two cases" in what else "not-found")
-            bad[kind].append("%s: exit code %r, expected %r" % (what, got, want))
-    if undec:
-        for k_ in ("single", "multi", "not-found"):
-            ctx.undecided("C17.aggregate", "main.run/%s" % k_, "evaluator: %s" % undec, f.W())
-    else:
-        ctx.check(not bad["single"], "C17.aggregate", "main.run/single", "exit code += system.exit_code, or +1 when no system was produced",
-                  "; ".join(bad["single"]), f.W())
-        ctx.check(not bad["multi"], "C17.aggregate", "main.run/multi", "multi-case exit codes summed", "; ".join(bad["multi"]), f.W())
-        ctx.check(not bad["not-found"], "C17.aggregate", "main.run/not-found", "file specified but not found => exit code 1",
-                  "; ".join(bad["not-found"]), f.W())
+            undec[kind] = str(ex)
+            continue
+        if not isinstance(got, int) or isinstance(got, bool) or (got != 0) != failed:
+            bad.setdefault(kind, []).append("%s: run(cli=True) returns %r" % (what, got))
+    texts = {"single": "exit code += system.exit_code, or +1 when no system was produced", "multi": "multi-case (pool) exit codes summed",
+             "multi-proc": "multi-case (worker processes): a failing case makes the exit code non-zero",
+             "not-found": "file specified but not found => exit code 1"}
+    for kind in texts:
+        if kind in undec:
+            ctx.undecided("C17.aggregate", "main.run/%s" % kind, "evaluator: %s" % undec[kind], f.W())
+        else:
+            ctx.check(kind not in bad, "C17.aggregate", "main.run/%s" % kind, texts[kind], "; ".join(bad.get(kind, [])), f.W())
     t = [tn for tn in f.g.nodes() if f.g.data(tn)["kind"] == "test" and Q.match("cli is True", f.g.data(tn)["ast"].test)]
     ok = bool(t) and any(src(f.g.data(r)["ast"].value) == "ex_code" and f.g.guarded_by(r, t[0], "true") for r in f.returns())
     ctx.check(ok, "C17.aggregate", "main.run/cli", "cli returns the exit code", "cli no longer returns the aggregated exit code", f.W())
